@@ -57,7 +57,7 @@ HandWritten == {
    <<"a", ":", "g", "o", "-", "r", "w", "x">>,                                                            \* secure()
    <<"a", ":", "u", "u", "=", "r", "r">>,                                                                 \* repeated letters
    <<"a", ":", "a", "+", "x", "w", "r">>,
-   <<"f", "f", ":", "u", "+", "x">>, <<"d", "f", ":", "a", "+", "r">>,                                    \* two target letters: malformed
+   <<"f", "f", ":", "u", "+", "x">>, <<"d", "f", ":", "a", "+", "r">>,                                    \* two target letters: malformed in the one-letter reading of ChmodSym (the crate's unit tests use "ad:", "af:": not judged by Trace_VfsPerm)
    <<"a", ":", "u", "+", "x", ",">>, <<"a", ":", "u", "+", "x", ",", ",", "a", ":", "u", "+", "r">>,      \* empty later clause: unsettled
    <<"a", ":", "u", "+", "x", ",", "f", ":", "a", "+">>,                                                  \* later clause without permission
    <<"a", ":", "u", "+", "-", "x">>, <<"a", ":", "+", "x">>, <<"a", "u", "+", "x">>, <<"u", "+", "x">> }
